@@ -287,6 +287,24 @@ func mdataRollupHistory(rec *trace.Recorder, dir string, rng *rand.Rand, h int, 
 			continue
 		}
 		closed = false
+		if im.n%2 == 1 {
+			// the node restarts twice before the rollup runs again (every open rewrites the manifest from the
+			// recovered state: what the first restart recovered must survive its own snapshot)
+			if database, _ = engine.GetDatabase(db); database != nil {
+				if sh, ok := database.GetShard(models.ShardID(1)); ok {
+					_, _ = sh.GetOrCrateDataFamily(familyStart)
+				}
+			}
+			engine.Close()
+			engine, err = openEngineAt(im.dir)
+			if err != nil {
+				rec.Emit("Error", trace.F{"op": "reopen image", "err": err.Error()})
+				os.RemoveAll(im.dir)
+				closed = true
+				continue
+			}
+			rec.Emit("Note", trace.F{"what": "image restarted twice before the rollup"})
+		}
 		if database, _ = engine.GetDatabase(db); database != nil {
 			shard, _ = database.GetShard(models.ShardID(1))
 			if _, err := shard.GetOrCrateDataFamily(familyStart); err == nil {
